@@ -79,7 +79,7 @@ def r5(repo, run):
         raise AnalysisError('ConfigList._validate_index: (self, index, strict) signature not recognised')
     bad = []
     rows = 0
-    for k in (-5, -4, -3, -2, -1, 0, 1, 2, 3, 4):
+    for LEN, k in [(n_, k_) for n_ in (0, 1, 3) for k_ in range(-n_ - 2, n_ + 3)]:
         for strict in (True, False):
             sub = {ps[1]: k, ps[2]: strict, 'len(self)': LEN}
             feas = [p for p in vp if tr.feasible(p, sub)[0]]
@@ -101,7 +101,8 @@ def r5(repo, run):
                 want = min(LEN, max(0, k if k >= 0 else LEN + k))
                 if got != want:
                     bad.append('index %r maps to position %r in a list of length %d (expected %r)' % (k, got, LEN, want))
-    run.table('C02.R5:_validate_index', rows, 'index -5..4 x strict against length 3')
+    LEN = 3
+    run.table('C02.R5:_validate_index', rows, 'index -(n+2)..(n+2) x strict against lengths n = 0, 1, 3')
     if bad:
         run.violation('C02.R5', vi, '_validate_index table', '; '.join(bad[:3]))
     else:
